@@ -412,7 +412,8 @@ func init() {
 	R("(*math/big.Int).MarshalText", func(e *Exec, st *State, fn *ssa.Function, args []Value, depth int) []Outcome {
 		x := e.bigGet(st, args[0])
 		if x.Op != OpConst {
-			unsupported("MarshalText of symbolic value")
+			// digits of a symbolic integer: an opaque string that is an injective function of the value
+			return ret1(st, Tuple{e.symStringBytes(st, e.opaqueString("bigstr", x).(SymStr)), Iface{}})
 		}
 		return ret1(st, Tuple{e.stringToBytes(st, x.Val.String()), Iface{}})
 	})
